@@ -73,6 +73,9 @@ func logPairLabel(a, b float64, ref float64) string {
 
 // oracle6: float64 property oracle of the round-6 anchor kinds with one or two float arguments
 func oracle6(fn string, h, k int, args []float64) (ok bool, obs, ref float64, label string) {
+	if isRound7(fn) {
+		return oracle7(fn, h, args[0])
+	}
 	switch fn {
 	case "LogAdd6":
 		if len(args) < 2 {
@@ -103,10 +106,16 @@ func oracle6(fn string, h, k int, args []float64) (ok bool, obs, ref float64, la
 		if fn == "BesselInt6" {
 			obs, p = safe(func() float64 { return sp.BesselI(float64(n), x) })
 			ref = besselSeriesInt(n, x)
+			if math.IsInf(ref, 1) { // I_n(x) overflows binary64 (x > ~713.98): +Inf is the specified outcome
+				return !p && math.IsInf(obs, 1), obs, ref, label
+			}
 			return !p && finite(obs) && math.Abs(obs-ref) <= 64*ulp*(1+x/8)*math.Abs(ref), obs, ref, label
 		}
 		obs, p = safe(func() float64 { return sp.LogBesselI(float64(n), x) })
 		ref = lnBesselInt(n, x)
+		if !finite(ref) { // the float64 reference series overflowed: this oracle cannot decide
+			return !p && !math.IsNaN(obs), obs, ref, label
+		}
 		return !p && finite(obs) && math.Abs(obs-ref) <= logBesselTol6(n, x, ref), obs, ref, label
 	case "LogErfcTiny6":
 		x := args[0]
@@ -129,6 +138,9 @@ func oracle6(fn string, h, k int, args []float64) (ok bool, obs, ref float64, la
 }
 
 func isRound6(fn string) bool {
+	if isRound7(fn) {
+		return true
+	}
 	switch fn {
 	case "LogAdd6", "LogSub6", "BesselInt6", "LogBesselInt6", "LogErfcTiny6", "LogErfcNeg6", "DigammaReflect6", "TrigammaReflect6":
 		return true
